@@ -327,7 +327,7 @@ def _playback_body(vc, inductive):
             vc.ensure("one_replay_at_a_time", len(st["active"]) == 1)
             vc.ensure("previous_replays_all_finished", st["finished"] == st["started"][:-1])
             # while the replay runs, other tasks may call check()/start_replay()/stop_replay(); they do not touch inflight
-            r = vc.case("replay_outcome", ["completes", "crashes"])
+            r = vc.case(f"replay_outcome#{len(st['started'])}", ["completes", "crashes"])   # one label per replay (native lookup is by label)
             st["active"].remove(h.flow)
             st["finished"].append(h.flow)
             if r == "crashes":
